@@ -164,7 +164,66 @@ pub fn run_edit_case(dic: &JapaneseDictionary, orig: &str, batches: &[Vec<Ed>], 
 
 pub type Ch0 = ();
 
+/// whole analyses: the code-point offsets every morpheme reports (`begin_c`/`end_c`, what the Python binding returns as
+/// begin()/end()) against the number of code points of the ORIGINAL text before its byte offsets - in every split mode, with
+/// restricted field subsets (the split stage places units with `head_word_length`, not with the loaded surface) and on
+/// recycled tokenizers
+fn run_morphemes(run: &mut Run, first_idx: usize, count: usize) {
+    use crate::c01::{analyse_with, world_for, CASES_PER_WORLD};
+    use crate::world::{gen_text, WorldOpts};
+    use sudachi::dic::subset::InfoSubset;
+    let opts = WorldOpts::default();
+    let mut cur_world: Option<(usize, Result<crate::world::World, String>)> = None;
+    for k in 0..count {
+        let idx = first_idx + k;
+        if !run.wants(idx) { continue; }
+        let widx = k / CASES_PER_WORLD;
+        if cur_world.as_ref().map(|w| w.0) != Some(widx) {
+            cur_world = None;
+            cur_world = Some((widx, world_for(run.opts.seed ^ 0xC08, &run.prop.clone(), widx, &opts)));
+        }
+        let w = match &cur_world.as_ref().unwrap().1 { Ok(w) => w, Err(_) => { run.bump("morphc:world-error"); continue; } };
+        let mut rng = Rng::for_case(run.opts.seed ^ 0xC08C08, idx);
+        let text = if k % CASES_PER_WORLD == 0 { "㍿(かぶ)12,345ァアー".to_string() } else { gen_text(&mut rng, w, 14) };
+        let mode = crate::dict::mode_of(rng.below(3));
+        let subset = match rng.below(4) {
+            0 => Some(InfoSubset::POS_ID),
+            1 => Some(InfoSubset::NORMALIZED_FORM | InfoSubset::READING_FORM),
+            2 => Some(InfoSubset::empty()),
+            _ => None,
+        };
+        let warm: Vec<String> = if rng.chance(1, 2) { (0..1 + rng.below(3)).map(|_| gen_text(&mut rng, w, 20)).collect() } else { vec![] };
+        run.bump(&format!("morphc:mode-{:?}:subset-{}", mode, match subset { None => "all".to_string(), Some(s) => format!("{:#x}", s.bits()) }));
+        let a = match analyse_with(&w.dic, &warm, &text, mode, subset) {
+            Ok(Ok(a)) => a,
+            Ok(Err(e)) => { run.bump(&format!("morphc:err:{}", e)); continue; }
+            Err(_) => { run.bump("morphc:panic(C03's business)"); continue; }
+        };
+        let payload = format!(
+            "orig={} cur={} m2o={} nodes={}",
+            hex(text.as_bytes()), hex(a.tables.modified.as_bytes()), join(a.tables.m2o.iter(), ","),
+            a.morphs.iter().map(|m| format!("{}:{}:{}:{}", m.6 .0, m.6 .1, m.6 .2, m.6 .3)).collect::<Vec<_>>().join(";")
+        );
+        let ans = format!("ok cc={}", a.morphs.iter().map(|m| format!("{}:{}", m.3, m.4)).collect::<Vec<_>>().join(","));
+        run.case(idx, "morphc", &payload, &ans, a.morphs.len() >= 2 && a.tables.modified != text);
+        for (i, m) in a.morphs.iter().enumerate() {
+            let (b, e, bc, ec) = (m.0, m.1, m.3, m.4);
+            if b > text.len() || e > text.len() || !text.is_char_boundary(b) || !text.is_char_boundary(e) { continue; } // C01's clause
+            let (wb, we) = (text[..b].chars().count(), text[..e].chars().count());
+            if bc != wb || ec != we {
+                run.fail(idx, "c08:codepoints", &format!("morpheme {} of {:?} (mode {:?}, subset {:?}, {} earlier texts): bytes {}..{} are code points {}..{}, begin_c()/end_c() report {}..{}",
+                    i, text, mode, subset.map(|s| s.bits()), warm.len(), b, e, wb, we, bc, ec));
+                break;
+            }
+        }
+    }
+}
+
 pub fn run(run: &mut Run) {
+    {
+        let n = run.opts.count;
+        run_morphemes(run, n, (n / 4).max(100));
+    }
     run.rule = "random original strings over mixed 1-4 byte characters x 1..4 successive batches of sorted non-overlapping \
 edits (deletions, insertions, shorter/longer/equal replacements, adjacent edits, at start/middle/end) generated on character \
 boundaries of the current text and leaving it non-empty; non-trivial = at least one edit changes the byte length; distinct by line".into();
